@@ -215,9 +215,9 @@ def vbs_write_events(recs, blocked, fins=('close',), api='class', fileobj=None, 
     return events, data
 
 
-def read_events(data, blocked, make_reader=None, limit=100000, project=None):
+def read_events(data, blocked, make_reader=None, limit=100000, project=None, fileobj=None):
     """Iterate a real reader over `data` until it stops or raises; one 'next' event per call."""
-    f = io.BytesIO(data)
+    f = fileobj if fileobj is not None else io.BytesIO(data)
     events = []
     try:
         with Watchdog(5.0):
